@@ -135,6 +135,11 @@ Plan Gen(uint64_t seed, Tier tier)
             p.ops.push_back(op);
         }
     }
+    // crash during recovery: a share of the crash images is restarted under the recorder and cut a second time
+    {
+        static const int64_t kPct[] = {15, 30, 60};
+        p.knobs["nested_pct"] = rng.chance(1, 2) ? 0 : kPct[rng.below(3)];
+    }
     return p;
 }
 
@@ -179,28 +184,53 @@ struct CrashSim {
         if (ii.tore) ctx.fault("torn_write");
         ctx.fault(spec.powerloss ? "crash_powerloss" : "crash_kill");
         if (ii.dropped) ctx.probe("unsynced_ops_dropped", ii.dropped);
-        // Reach probe: did the crash leave a torn coins flush (DB_HEAD_BLOCKS), and does repairing it need a rollback?
-        // (Opening the database here does what the node's own start does first anyway: LevelDB log recovery.)
-        try {
-            CCoinsViewDB peek(DBParams{.path = fs::PathFromString(img + "/node0/chainstate"), .cache_bytes = 1 << 20}, CoinsViewOptions{});
-            std::vector<uint256> heads = peek.GetHeadBlocks();
-            if (heads.size() == 2) {
-                ctx.probe("torn_coins_flush_left");
-                int hn = cs.ref->Find(heads[0]), ho = heads[1].IsNull() ? 0 : cs.ref->Find(heads[1]);
-                if (hn >= 0 && ho >= 0 && !cs.ref->IsAncestor(ho, hn)) ctx.probe("replay_needs_rollback");
+        const size_t k = spec.k;
+        char where[200];
+        snprintf(where, sizeof where, "crash at io %zu/%zu %s j=%zu torn=%d", k, end, spec.powerloss ? "powerloss" : "kill", spec.j, (int)ii.tore);
+        const int nested_pct = (int)ctx.knob("nested_pct", 0);
+        const bool nest = nested_pct > 0 && (int)(mix64(mix64(k, spec.j) + spec.powerloss, (uint64_t)n + 0x51ed) % 100) < nested_pct;
+        if (!nest) {
+            // Reach probe: did the crash leave a torn coins flush (DB_HEAD_BLOCKS), and does repairing it need a rollback?
+            // (Opening the database here does what the node's own start does first anyway: LevelDB log recovery.)
+            try {
+                CCoinsViewDB peek(DBParams{.path = fs::PathFromString(img + "/node0/chainstate"), .cache_bytes = 1 << 20}, CoinsViewOptions{});
+                std::vector<uint256> heads = peek.GetHeadBlocks();
+                if (heads.size() == 2) {
+                    ctx.probe("torn_coins_flush_left");
+                    int hn = cs.ref->Find(heads[0]), ho = heads[1].IsNull() ? 0 : cs.ref->Find(heads[1]);
+                    if (hn >= 0 && ho >= 0 && !cs.ref->IsAncestor(ho, hn)) ctx.probe("replay_needs_rollback");
+                }
+            } catch (const std::exception&) {
+                // an unopenable database is reported by the node start below
             }
-        } catch (const std::exception&) {
-            // an unopenable database is reported by the node start below
         }
+        RecoverImage(img, where, k, n, spec.powerloss, nest ? 1 : 0, nullptr);
+        std::error_code ec;
+        std::filesystem::remove_all(img, ec);
+        ++images;
+    }
+
+    /** Start a fresh node on the directory `img` and judge what it recovers. With nest_depth > 0 the restart itself is recorded
+     *  (the image is adopted as a durable log prefix) and cut once more: a crash DURING recovery (ReplayBlocks, reconnecting stored
+     *  blocks, their flushes), again under kill or power-loss semantics, followed by a second restart judged by the same oracle.
+     *  `lineage_tips`: blocks an earlier recovery of this lineage connected (they count as connected before the later crash). */
+    void RecoverImage(const std::string& img, const char* where, size_t k, int n, bool powerloss, int nest_depth, const std::vector<uint256>* lineage_tips)
+    {
         NodeOpts o = BaseOpts(img + "/node0");
         o.check_level = 4;
         o.check_blocks = 0;
         o.total_cache_bytes = 64 << 20;
-        o.batch_write_bytes = 16 << 20;
+        o.batch_write_bytes = nest_depth > 0 && ctx.knob("batch_bytes", 16 << 20) < (16 << 20) ? (uint64_t)ctx.knob("batch_bytes", 16 << 20) : (16 << 20);
+        simfs::SavedLog saved;
+        size_t nested_base = 0, nested_end = 0;
+        std::vector<std::pair<uint256, size_t>> rtips;
+        const size_t zero = 0;
+        if (nest_depth > 0) {
+            saved = simfs::TakeLog();
+            nested_base = simfs::ArmAdopt(img);
+            o.listeners.push_back(std::make_shared<TipRecorder>(&rtips, &zero));
+        }
         SimNode rec(o);
-        const size_t k = spec.k;
-        char where[160];
-        snprintf(where, sizeof where, "crash at io %zu/%zu %s j=%zu torn=%d", k, end, spec.powerloss ? "powerloss" : "kill", spec.j, (int)ii.tore);
         ctx.evf("recover %s", where);
         int R_idx = -2;
         rec.opts.after_load = [&] {
@@ -221,6 +251,9 @@ struct CrashSim {
                 bool was_tip = R_idx == 0;
                 for (auto& [h, at] : tips)
                     if (h == R && at <= k) { was_tip = true; break; }
+                if (!was_tip && lineage_tips)
+                    for (const uint256& h : *lineage_tips)
+                        if (h == R) { was_tip = true; break; }
                 if (!was_tip) ctx.failf("recovered-tip-never-connected", "%s: coins DB best block #%d (h=%d) was not being or had not been connected before the crash", where, R_idx, cs.ref->blocks[R_idx].height);
                 want = cs.ref->blocks[R_idx].utxo.get();
             }
@@ -239,13 +272,18 @@ struct CrashSim {
             }
             if (ncoins != want->size()) ctx.failf("recovered-utxo-missing-coin", "%s: recovered set has %zu coins, the model's UTXO(#%d) has %zu", where, ncoins, R_idx, want->size());
         };
+        auto T1 = std::chrono::steady_clock::now();
         bool ok = rec.Start();
         auto T2 = std::chrono::steady_clock::now();
-        if (getenv("VERIF_TIMING")) fprintf(stderr, "timing: materialize %.1f ms start %.1f ms (k=%zu)\n", std::chrono::duration<double, std::milli>(T1 - T0).count(), std::chrono::duration<double, std::milli>(T2 - T1).count(), k);
+        if (nest_depth > 0) {
+            nested_end = simfs::LogSize();
+            simfs::Disarm();
+        }
+        if (getenv("VERIF_TIMING")) fprintf(stderr, "timing: start %.1f ms (k=%zu)\n", std::chrono::duration<double, std::milli>(T2 - T1).count(), k);
         if (!ok && getenv("VERIF_SIMFS_DUMP")) {
             const auto& log = simfs::Log();
             for (size_t i = 0; i < std::min(k, log.size()); ++i)
-                fprintf(stderr, "io[%zu]%s %s ino=%u off=%lu len=%lu %s %s\n", i, i >= spec.j ? "*" : " ", simfs::KindName(log[i].kind), log[i].ino, (unsigned long)log[i].off, (unsigned long)log[i].len, log[i].path.c_str(), log[i].path2.c_str());
+                fprintf(stderr, "io[%zu] %s ino=%u off=%lu len=%lu %s %s\n", i, simfs::KindName(log[i].kind), log[i].ino, (unsigned long)log[i].off, (unsigned long)log[i].len, log[i].path.c_str(), log[i].path2.c_str());
         }
         if (!ok) {
             std::string st = rec.last_status == node::ChainstateLoadStatus::FAILURE ? "needs-reindex" : "failed";
@@ -262,7 +300,7 @@ struct CrashSim {
         if (R_idx >= 0 && t != R_idx) ctx.probe("rolled_forward_from_stored_blocks");
         if (R_idx >= 0 && F > 0 && cs.ref->Work(R_idx) < cs.ref->Work(F)) ctx.probe("coins_behind_last_flush");
         ctx.evf("recovered R=#%d tip=#%d F=#%d", R_idx, t, F);
-        ctx.fingerprint(mix64(mix64((uint64_t)R_idx + 7, t), mix64(spec.powerloss, cs.ref->blocks.size())));
+        ctx.fingerprint(mix64(mix64((uint64_t)R_idx + 7, t), mix64(powerloss + 2 * (lineage_tips != nullptr), cs.ref->blocks.size())));
         // (4) bounded liveness after faults stop: re-deliver everything, end in a legal most-work state with the model's UTXO
         if ((int)(mix64(k, n) % 100) < ctx.knob("redeliver_pct", 25)) {
             // temporarily point the chain oracle at the recovered node (non-owning: released again in the guard)
@@ -279,9 +317,56 @@ struct CrashSim {
             ctx.probe("redelivered_after_recovery");
         }
         rec.Stop(false);
-        std::error_code ec;
-        std::filesystem::remove_all(img, ec);
-        ++images;
+        if (nest_depth > 0) {
+            // the crash during recovery: cut the recorded restart, rebuild, restore the outer log, recover once more
+            const std::string img2 = img + "n";
+            bool have2 = false;
+            char where2[420];
+            bool pl2 = false;
+            if (nested_end > nested_base) {
+                const auto& log = simfs::Log();
+                const uint64_t r = mix64(mix64(k, n), nested_end);
+                simfs::CrashSpec s2;
+                s2.k = nested_base + 1 + (size_t)(r % (nested_end - nested_base));
+                if (((r >> 20) & 3) == 0) {
+                    // bias: right after a sync/rename/unlink of the restart
+                    for (size_t i = s2.k; i > nested_base; --i)
+                        if (log[i - 1].kind == simfs::OpKind::SYNC || log[i - 1].kind == simfs::OpKind::RENAME || log[i - 1].kind == simfs::OpKind::UNLINK) { s2.k = i - ((r >> 24) & 1); break; }
+                    s2.k = std::clamp(s2.k, nested_base, nested_end);
+                }
+                const int mode = (int)((r >> 32) % 3);
+                s2.powerloss = pl2 = mode != 0;
+                s2.j = s2.k;
+                if (mode == 2) {
+                    size_t lo = nested_base;
+                    for (size_t i = s2.k; i > nested_base; --i)
+                        if (log[i - 1].kind == simfs::OpKind::SYNC || log[i - 1].kind == simfs::OpKind::SYNCDIR) { lo = i; break; }
+                    s2.j = lo + (size_t)((r >> 40) % (s2.k - lo + 1));
+                }
+                s2.torn = s2.powerloss && ((r >> 52) & 1) && s2.j > nested_base;
+                s2.torn_sel = (uint32_t)(r >> 8);
+                simfs::ImageInfo i2;
+                if (!simfs::Materialize(s2, img2, &i2)) ctx.failf("sim-materialize-failed", "nested image %d", n);
+                ctx.fault(s2.powerloss ? "nested_crash_powerloss" : "nested_crash_kill");
+                if (i2.tore) ctx.fault("torn_write");
+                if (i2.dropped) ctx.probe("nested_unsynced_ops_dropped", i2.dropped);
+                ctx.probe("recovery_io_ops_recorded", nested_end - nested_base);
+                snprintf(where2, sizeof where2, "%s, then crash during the restart at its io %zu/%zu %s j=%zu torn=%d", where, s2.k - nested_base, nested_end - nested_base, s2.powerloss ? "powerloss" : "kill", s2.j - nested_base, (int)i2.tore);
+                have2 = true;
+            } else {
+                ctx.probe("restart_wrote_nothing");
+            }
+            simfs::RestoreLog(std::move(saved));
+            if (have2) {
+                std::vector<uint256> lt;
+                if (lineage_tips) lt = *lineage_tips;
+                for (auto& [h, at] : rtips) lt.push_back(h);
+                RecoverImage(img2, where2, k, n, pl2, nest_depth - 1, &lt);
+                std::error_code ec;
+                std::filesystem::remove_all(img2, ec);
+                ctx.probe("nested_recoveries");
+            }
+        }
     }
 
     void Run()
@@ -459,13 +544,13 @@ Engine MakeEngine()
     e.rule = "each run = one recorded workload on an on-disk regtest node (base chain 101-112 blocks, then 12-60 operations: blocks with transactions, forks/reorgs, forced and periodic flushes, clock "
              "jumps past the periodic-write interval, clean restarts; knobs: coins cache 4 KiB-8 MiB, coins batch 100 B-16 MiB so partial batches with DB_HEAD_BLOCKS are dense, -fastprune file size) "
              "followed by 20-120 crash points (or, thorough tier in 1/3 of runs, EVERY I/O index) x {process kill, power loss with cut j=k / j=last sync / seeded j, optional torn last append}; a fresh node "
-             "is started on each reconstructed directory. non-trivial = at least one recovery ran; distinct = distinct (recovered coins best block, tip after restart, semantics, #blocks) fingerprints. "
+             "is started on each reconstructed directory; in half of the runs 15-60 % of those restarts are themselves recorded and cut once more (crash during recovery), followed by a second restart under the same oracle. non-trivial = at least one recovery ran; distinct = distinct (recovered coins best block, tip after restart, semantics, #blocks) fingerprints. "
              "The probe `recoveries` counts crash images recovered (the evaluations of the fault space); `evaluations` counts workloads.";
     e.real_components = {"ChainstateManager/Chainstate incl. FlushStateToDisk, ReplayBlocks, LoadChainstate, VerifyDB level 4", "BlockManager flat files + block index DB", "CCoinsViewDB partial batches", "LevelDB (log, manifest, table files, recovery)", "glibc stdio buffering above the recorded file layer"};
     e.stub_components = {"disk and page cache (simfs: recorded pass-through to tmpfs; crash = log cut + rebuild)", "process crash (never a real kill)", "peers", "clock (SetMockTime)", "LevelDB background compaction thread: real, not scheduled by the simulator (counted by probe io_from_background_thread)"};
     e.assumptions = {"power-loss model: a suffix of not-yet-synced operations is discarded; an fsync/fdatasync of an inode makes all its earlier writes and its directory entry durable; rename/unlink/mkdir become durable with an fsync of the parent directory; torn writes only at 512-byte boundaries of an unsynced append",
                      "RefChain model is correct (see C08)", "oracle (3) uses the tip at the last forced full flush (or clean shutdown) that returned before the crash index"};
-    e.expected_probes = {"recoveries", "crash_kill", "crash_powerloss", "torn_write", "unsynced_ops_dropped", "rolled_forward_from_stored_blocks", "redelivered_after_recovery", "reorg", "clean_restart", "torn_coins_flush_left", "replay_needs_rollback", "io_error_node_stopped"};
+    e.expected_probes = {"recoveries", "crash_kill", "crash_powerloss", "torn_write", "unsynced_ops_dropped", "rolled_forward_from_stored_blocks", "redelivered_after_recovery", "reorg", "clean_restart", "torn_coins_flush_left", "replay_needs_rollback", "io_error_node_stopped", "nested_recoveries", "nested_crash_kill", "nested_crash_powerloss"};
     return e;
 }
 Engine g_engine = MakeEngine();
